@@ -328,7 +328,7 @@ func classify(w []ref.FS) wclass {
 
 func run(c *core.Case) {
 	r := c.Rng
-	useST := r.IntN(4) == 0
+	useST := r.IntN(3) == 0
 	iv := []int64{1000, 15000, 15000, 10, 7, 60000, 30000}[r.IntN(7)]
 	n := r.IntN(13)
 	if r.IntN(5) == 0 {
@@ -428,16 +428,41 @@ func run(c *core.Case) {
 		}
 
 		// one range query of rate/increase/delta sliding across the window end
-		if wi == 0 {
-			fn := []string{"rate", "increase", "delta", "irate", "resets"}[r.IntN(5)]
-			q := fmt.Sprintf("%s(m[%s]%s)", fn, ref.Dur(rng), ms.m.String())
-			step := []int64{1, iv, iv / 2, rng, 1000}[r.IntN(5)]
-			if step < 1 {
-				step = 1
+		// (steps at and above the range: consecutive windows share no sample, so nothing of the
+		// previous step's buffers - points, start timestamps - may survive into the next one)
+		rfns := []string{[]string{"rate", "increase", "delta", "irate", "resets"}[r.IntN(5)]}
+		if useST {
+			rfns = []string{"rate", "increase", "irate", "resets"}
+		} else if wi == 1 {
+			rfns = nil
+		}
+		step := []int64{1, iv, iv / 2, rng, 1000, rng + 1, 2 * rng, rng + iv}[r.IntN(8)]
+		if step < 1 {
+			step = 1
+		}
+		nst := int64(2 + r.IntN(5))
+		if useST || r.IntN(3) == 0 {
+			nst = int64(2 + r.IntN(11))
+		}
+		kk := int64(r.IntN(int(nst)))
+		tiling := useST && wi == 1 && len(ts0) > 0 && !ms.m.HasAt
+		if tiling {
+			// tile the whole series with windows that do not overlap: every window after a non-empty
+			// one starts from buffers that must have been emptied
+			step = rng + []int64{0, 1, iv / 3, rng / 2}[r.IntN(4)]
+			nst = (ts0[len(ts0)-1]-ts0[0])/step + 3
+			if nst > 24 {
+				nst = 24
 			}
-			nst := int64(2 + r.IntN(5))
-			k := int64(r.IntN(int(nst)))
+			c.Count("tiling_range_queries_with_start_timestamps", 1)
+		}
+		for _, fn := range rfns {
+			q := fmt.Sprintf("%s(m[%s]%s)", fn, ref.Dur(rng), ms.m.String())
+			k := kk
 			start := ms.t - k*step
+			if tiling {
+				start = ts0[0] + ms.m.Offset + int64(r.IntN(int(rng)+1))
+			}
 			end := start + (nst-1)*step
 			texts = append(texts, fmt.Sprintf("%s@%d..%d/%d", q, start, end, step))
 			out := st.Range(eng, q, start, end, step, 0)
